@@ -67,6 +67,11 @@ public:
    /** Returns the level of zlib-compression we will apply to outgoing packets just before sending them. */
    MUSCLE_NODISCARD uint8 GetZLibCompressionLevel() const {return _sendCompressionLevel;}
 
+#ifdef MUSCLE_VERIF_HOOKS
+   /** Verification hook:  presets the counter that IDs of outgoing packets are taken from (to reach wrap-around quickly) */
+   void VerifSetSendPacketIDCounter(uint32 v) {_sendPacketIDCounter = v;}
+#endif
+
 protected:
    /** Implemented to receive packets from various sources and split them up into
      * the appropriate Message objects.  Note that when MessageReceived() is called on the
